@@ -94,6 +94,9 @@ def gen_doc(rng, big=False, faults=True, huge=False):
         if n['tag'] == 'item' and rng.random() < 0.4:
             if faults and rng.random() < 0.05:
                 n['attrs']['q'] = 'zz:name'
+            elif faults and rng.random() < 0.25 and {'p', 'q'} - scope:
+                # a prefix that other elements of the document declare (possibly the previous chunk) but is not in scope here
+                n['attrs']['q'] = '%s:name' % rng.choice(sorted({'p', 'q'} - scope))
             else:
                 n['attrs']['q'] = '%s:name' % rng.choice(sorted(scope))
         for k in n['kids']:
